@@ -47,9 +47,25 @@ CLAIMED["C13"] = (
     "DESIGN.md section 5, C13",
 )
 
+CLAIMED["C05"] = (
+    "input",
+    "fault_enumeration",
+    "For every sampled byte stream the check enumerates EVERY single cut point and, for each, both 'remainder arrives "
+    "before complete_wait' and 'timeout fires first', then adds sampled multi-cut schedules (gaps around complete_wait, "
+    "short reads, SIGWINCH between fragments, timer/arrival ties both ways) on all six event loops and the synchronous "
+    "get_input path; the real Screen reads a fake tty on a virtual clock. Oracles: no exception, byte accounting, "
+    "fragmentation invariance against whole delivery of each actually-flushed group, an implementation-independent token "
+    "table (key names, X10/SGR mouse, CPR, UTF-8, double-byte), bounded flush. Exhaustive per sampled stream over "
+    "single-cut schedules; streams themselves are sampled.",
+    "Line discipline not modelled; the invariance reference is urwid's own decoder on whole groups (metamorphic), paired "
+    "with the independent token table; EAGAIN/EOF on the tty not injected.",
+    "deterministic simulation: enumerated read-fragmentation and timeout schedules on a virtual clock with fake tty",
+    "DESIGN.md section 5, C05",
+)
+
 PENDING = {
     p: "claimed in DESIGN.md; its simulation engine is not built yet in this tree, so no check is registered for it at this commit"
-    for p in ("C04", "C05", "C06", "C07", "C08", "C10", "C12", "C15", "C20")
+    for p in ("C04", "C06", "C07", "C08", "C10", "C12", "C15", "C20")
 }
 
 
